@@ -500,13 +500,21 @@ class Session:
     @staticmethod
     def _call_rec(call):
         return {"kind": call["kind"], "roots": call["roots"], "owner": call.get("owner", ""),
-                "inline": call.get("inline", [])}
+                "inline": worlds.norm_stmts(call.get("inline", []))}
 
     def op_probe(self, op):
         self.cb_script = {}            # callbacks only record during probes
         self.cb_log = []
         call = op["call"]
         paths = op["paths"]
+        if isinstance(paths, str) and paths.startswith("ALL:"):
+            top = paths[4:]
+            # every scalar below the top object, except elements of non-random lists (constants; the library cannot
+            # index a list that is reached through a list element inside a constraint)
+            def nonrand_elem(p_):
+                m_ = re.match(r"(.*)\[\d+\]$", p_)
+                return bool(m_) and m_.group(1) in self.W["lists"] and not self.W["lists"][m_.group(1)]["declrand"]
+            paths = sorted(p_ for p_ in self.project()["v"] if (p_ == top or p_.startswith(top + ".")) and not nonrand_elem(p_))
         cap = op.get("cap", 4096)
         doms = []
         for p in paths:
